@@ -33,7 +33,8 @@ TRUSTED = ["T-out: the process models of FunModel/Orch.lean are tied to srv/orch
 ASSUMPTIONS = ["no other goroutine is inside Service.Start of a service at the moment the orchestrator dispatches it "
                "(the open finding orchestrator:add-during-start is replayed separately)",
                "a Group whose context ends while it is still iterating over its members starts only the members it has been "
-               "handed by then", "Cleanup is used with timeout 0 (the timeout is wall-clock)"]
+               "handed by then", "the members of a Group are not started by anybody else; each service / job is handed over once",
+               "Cleanup is used with timeout 0 (the timeout is wall-clock) and its functions do not block"]
 HARNESS_ENV = {"VERIF_CASE_TIMEOUT_MS": "60000"}
 
 KEY_DURING_START = "orchestrator:add-during-start"
@@ -620,6 +621,7 @@ def main(tier, seed, replay):
     if os.environ.get("VERIF_C11_WRITE_SHAPES") == "1":
         import json
         json.dump(shapes(), open(shapes_path(), "w"), indent=1, sort_keys=True)
+    os.environ.setdefault("VERIF_C11_HANG_MS", "10000" if tier == "quick" else "20000")   # hang detector only
     orig = C.run_lines
     orig_build = C.lake_build
     last = {"lines": None, "obs": None}
